@@ -127,7 +127,9 @@ class TimedList(Generic[Item]):
             raise ValueError("Column Names do not match.")
         for col_name, (col_type, default) in cls._item_class()._props.items():
             if col_name not in df:
-                df[col_name] = default
+                # One value per row: a list default (e.g. Quaver keysounds)
+                # cannot be broadcast by pandas as a scalar.
+                df[col_name] = [deepcopy(default) for _ in range(len(df))]
                 df[col_name] = df[col_name].astype(col_type)
 
         tl.df = df
